@@ -80,9 +80,15 @@ func init() {
 	d12 := []int{1, 2}
 	d1 := []int{1}
 	register(
-		&opDesc{name: "Add", scheme: "bgv", binary: true, aDegs: d12, natural: natAdd, call: bin(func(w *world, a *rlwe.Ciphertext, b rlwe.Operand, out *rlwe.Ciphertext) error { return w.bgv.Add(a, b, out) })},
-		&opDesc{name: "Sub", scheme: "bgv", binary: true, aDegs: d12, natural: natAdd, call: bin(func(w *world, a *rlwe.Ciphertext, b rlwe.Operand, out *rlwe.Ciphertext) error { return w.bgv.Sub(a, b, out) })},
-		&opDesc{name: "Mul", scheme: "bgv", binary: true, aDegs: d12, natural: natMul, call: bin(func(w *world, a *rlwe.Ciphertext, b rlwe.Operand, out *rlwe.Ciphertext) error { return w.bgv.Mul(a, b, out) })},
+		&opDesc{name: "Add", scheme: "bgv", binary: true, aDegs: d12, natural: natAdd, call: bin(func(w *world, a *rlwe.Ciphertext, b rlwe.Operand, out *rlwe.Ciphertext) error {
+			return w.bgv.Add(a, b, out)
+		})},
+		&opDesc{name: "Sub", scheme: "bgv", binary: true, aDegs: d12, natural: natAdd, call: bin(func(w *world, a *rlwe.Ciphertext, b rlwe.Operand, out *rlwe.Ciphertext) error {
+			return w.bgv.Sub(a, b, out)
+		})},
+		&opDesc{name: "Mul", scheme: "bgv", binary: true, aDegs: d12, natural: natMul, call: bin(func(w *world, a *rlwe.Ciphertext, b rlwe.Operand, out *rlwe.Ciphertext) error {
+			return w.bgv.Mul(a, b, out)
+		})},
 		&opDesc{name: "MulRelin", scheme: "bgv", binary: true, aDegs: d1, natural: natMulRelin, call: bin(func(w *world, a *rlwe.Ciphertext, b rlwe.Operand, out *rlwe.Ciphertext) error {
 			return w.bgv.MulRelin(a, b, out)
 		})},
@@ -98,9 +104,15 @@ func init() {
 		&opDesc{name: "MulRelinThenAdd", scheme: "bgv", binary: true, acc: true, aDegs: d1, call: bin(func(w *world, a *rlwe.Ciphertext, b rlwe.Operand, out *rlwe.Ciphertext) error {
 			return w.bgv.MulRelinThenAdd(a, b, out)
 		})},
-		&opDesc{name: "AddNew", scheme: "bgv", binary: true, isNew: true, aDegs: d12, call: binNew(func(w *world, a *rlwe.Ciphertext, b rlwe.Operand) (*rlwe.Ciphertext, error) { return w.bgv.AddNew(a, b) })},
-		&opDesc{name: "SubNew", scheme: "bgv", binary: true, isNew: true, aDegs: d12, call: binNew(func(w *world, a *rlwe.Ciphertext, b rlwe.Operand) (*rlwe.Ciphertext, error) { return w.bgv.SubNew(a, b) })},
-		&opDesc{name: "MulNew", scheme: "bgv", binary: true, isNew: true, aDegs: d1, call: binNew(func(w *world, a *rlwe.Ciphertext, b rlwe.Operand) (*rlwe.Ciphertext, error) { return w.bgv.MulNew(a, b) })},
+		&opDesc{name: "AddNew", scheme: "bgv", binary: true, isNew: true, aDegs: d12, call: binNew(func(w *world, a *rlwe.Ciphertext, b rlwe.Operand) (*rlwe.Ciphertext, error) {
+			return w.bgv.AddNew(a, b)
+		})},
+		&opDesc{name: "SubNew", scheme: "bgv", binary: true, isNew: true, aDegs: d12, call: binNew(func(w *world, a *rlwe.Ciphertext, b rlwe.Operand) (*rlwe.Ciphertext, error) {
+			return w.bgv.SubNew(a, b)
+		})},
+		&opDesc{name: "MulNew", scheme: "bgv", binary: true, isNew: true, aDegs: d1, call: binNew(func(w *world, a *rlwe.Ciphertext, b rlwe.Operand) (*rlwe.Ciphertext, error) {
+			return w.bgv.MulNew(a, b)
+		})},
 		&opDesc{name: "MulRelinNew", scheme: "bgv", binary: true, isNew: true, aDegs: d1, call: binNew(func(w *world, a *rlwe.Ciphertext, b rlwe.Operand) (*rlwe.Ciphertext, error) {
 			return w.bgv.MulRelinNew(a, b)
 		})},
@@ -183,13 +195,16 @@ var chainShapes = []struct {
 	{[]int{50, 50}, 2},
 }
 
+// poolMinLogN is the smallest ring degree poolSpec draws (raised by generators that need sub-rings).
+var poolMinLogN = 4
+
 func poolSpec(t *rapid.T, allowCI bool, ntt *bool, sizeShift int, needP ...bool) h.RLWESpec {
 	maxLogN := 6
 	if h.Thorough() {
 		maxLogN = 7
 	}
 	var s h.RLWESpec
-	s.LogN = rapid.IntRange(4, maxLogN).Draw(t, "logN")
+	s.LogN = rapid.IntRange(poolMinLogN, maxLogN).Draw(t, "logN")
 	shapes := []int{0, 1, 2, 3, 4, 5}
 	if len(needP) > 0 && needP[0] {
 		shapes = []int{2, 3, 3} // chains with an auxiliary modulus (hoisted rotations) and 3-4 Q primes (circuit depth)
